@@ -110,9 +110,22 @@ def gen() -> None:
           ("formparser.FormDataParser", px.find_method(fdp, "parse")), ("formparser.FormDataParser", px.find_method(fdp, "_parse_multipart")),
           ("sansio.request.Request", px.find_method(sreq, "args")), ("test", px.find_def(tst, "_iter_data"))]
     holes = {ast.unparse(i.test): "<LIMIT-CONDITION>" for i in px.ifs_raising(px.find_method(fdp, "_parse_urlencoded"), "RequestEntityTooLarge")}
-    sk_text = "\n".join(f"## {o}.{f.name}\n" + px.skeleton(f) for o, f in sk)
+    sk_text = "\n".join(f"## {o}.{f.name}\n" + px.skeleton(f, deep=True) for o, f in sk)
     sk_text += "\n## formparser.FormDataParser._parse_urlencoded\n" + px.skeleton(px.find_method(fdp, "_parse_urlencoded"), holes) + "\n"
     px.check_pin("C02", "c02_forms.txt", sk_text, "statement skeleton of the form encoders / parsers")
+    # the test client / environ builder glue that the end-to-end oracles stand for (EnvironBuilder -> Request.form/files/args):
+    # whole classes, so that any edit of this glue is at least reported
+    glue = [("test", px.find_class(tst, "EnvironBuilder")), ("test", px.find_def(tst, "encode_multipart")),
+            ("test.Client", px.find_method(px.find_class(tst, "Client"), "open")),
+            ("test.Client", px.find_method(px.find_class(tst, "Client"), "resolve_redirect")),
+            ("test", px.find_def(tst, "run_wsgi_app")), ("test", px.find_def(tst, "create_environ")),
+            ("datastructures.file_storage", px.find_class(px.load("datastructures/file_storage.py"), "FileStorage")),
+            ("datastructures.file_storage", px.find_class(px.load("datastructures/file_storage.py"), "FileMultiDict")),
+            ("formparser", px.find_def(fpm, "default_stream_factory")),
+            ("formparser.MultiPartParser", px.find_method(px.find_class(fpm, "MultiPartParser"), "start_file_streaming")),
+            ("formparser.MultiPartParser", px.find_method(px.find_class(fpm, "MultiPartParser"), "get_part_charset"))]
+    px.check_pin("C02", "c02_client_glue.txt", "\n".join(f"## {o}.{f.name}\n" + px.skeleton(f, deep=True) for o, f in glue) + "\n",
+                 "statement skeleton of the test client / environ builder glue")
     text = px.HEADER.format(tool="c02.py", src="urls.py, sansio/multipart.py, test.py")
     text += f"Definition client_read_size : N := {read_size}.\n"
     text += f"Definition urlencode_safe_text : list N := {px.coq_string_codes(safe)}.\n"
